@@ -56,6 +56,8 @@ def run(ctx):
     m = ByteFsm(pf, ['state', 'prev_state'])
     start = (START, START)
     seen, trans, prob = explore(m, [start])
+    fp = m.frame_problems()
+    rep.check(r2, not fp, 'loop-is-all', 'the function is nothing but the byte loop starting at offset 0: %s' % (fp or 'ok'), '%s:%d' % (pf.file, pf.line))
     rep.check(r2, not prob and not m.impure, 'fold-shape', '%d states x 256 bytes evaluated; undecidable: %d; reads other than data[i]: %d' % (len(seen), len(prob), len(m.impure)), '%s:%d' % (pf.file, pf.line))
     for nm, v in [('EOB', EOB), ('FAIL', FAIL)]:
         sts = [s for s in seen if s[0] == v]
